@@ -15,6 +15,7 @@ func init() {
 			"FE-INT: len(value) threshold T with 10 <= T < 18 selecting time.Unix(n,0) vs time.Unix(0,n); math.Round on the fractional branch; RFC3339Nano fallback; empty -> default",
 			"since/until of openLog: the resolved range reaches the daemon as the same instants",
 			"FE-BOOL IsInstant (a range query whose ends coincide gets no look-back)",
+			"PV-ROLE APIFlag.Set stores its argument verbatim; PV-GUARD each of since/start/end is parsed under conditions on that flag only",
 		},
 		NotDecided: []string{"float rounding of fractional seconds beyond 'rounded, not truncated'", "model.ParseDuration semantics"},
 		Rules: func(r *Run) {
@@ -22,6 +23,8 @@ func init() {
 			ruleTimeParams(r)
 			ruleOpenLog(r) // the resolved range is what the daemon is asked for: since/until spell the same instants
 			ruleIsInstant(r)
+			ruleAPIFlagVerbatim(r)
+			ruleTimeRangeIndependentFlags(r)
 		},
 	})
 }
